@@ -3320,7 +3320,7 @@ def replace_known_sequence_value(value: Value) -> Value:
     if isinstance(value, TypeVarValue):
         return replace_known_sequence_value(value.get_fallback_value())
     if isinstance(value, KnownValue):
-        if isinstance(value.val, (list, tuple, set)):
+        if isinstance(value.val, (list, tuple, set, frozenset)):
             return SequenceValue(
                 type(value.val), [(False, KnownValue(elt)) for elt in value.val]
             )
